@@ -2395,6 +2395,10 @@ func (data *Data) mapShardsToMst(database string, rpi *RetentionPolicyInfo, sgi 
 func mapShards(mstName string, shards []ShardInfo, numOfShards int32) []int {
 	sour := rand.NewSource(int64(HashID([]byte(mstName))))
 	randomSlice := rand.New(sour).Perm(len(shards))
+	if int(numOfShards) > len(shards) {
+		// a shard group created when the cluster had fewer partitions has fewer shards
+		numOfShards = int32(len(shards))
+	}
 	shardsIdx := randomSlice[:numOfShards]
 	sort.Ints(shardsIdx)
 	return shardsIdx
